@@ -1,2 +1,8 @@
 import LZ4V.Spec.Block
+import LZ4V.Spec.BlockFast
 import LZ4V.Proofs.BlockHub
+import LZ4V.Gen.Consts
+import LZ4V.Gen.Funcs
+import LZ4V.Gen.Guards
+import LZ4V.Judge.Rec
+import LZ4V.Judge.Block
